@@ -199,9 +199,9 @@ def genOp (maxObjs : Nat) : G Unit := do
   else if k < 93 then
     if let some o ← pickObj then emit s!"dtor {o.1} {← pick dtorWords}"
   else if k < 97 then
-    if let some o ← pickObj then
-      let mx ← pick [0, 0, 100, 300, 1000, 5000, 100000]
-      emit s!"limit {o.1} {mx}{← failW}"
+    -- memory limits belong to the c19 profile (property C19); here: one more unlink through
+    -- the NULL context
+    if let some o ← pickObj then emit s!"unlink - {o.1}"
   else if k < 99 then emit s!"nullon{← failW}"
   else emit "nulloff"
 
